@@ -31,12 +31,23 @@ Tolerances (derived from the documented field formats, never from the observed b
 
 Keys: <format>:<field>:<mechanism>.  Cases in which a coordinate does not fit the format's field (gro %(p+5).pf, rst7 %12.7f,
 compressed xtc int32(1000 x)) - the "just outside the field limit" part of the workload - report every coordinate/layout
-disagreement under the single key <format>:xyz:field-overflow-written-not-refused (mdcrd and pdb refuse or degrade as documented)."""
+disagreement under the single key <format>:xyz:field-overflow-written-not-refused (mdcrd and pdb refuse or degrade as documented).
+
+Round-5 widening (stream "C01wide", same monitors and tolerances): coordinate patterns a compressor / formatter may special-case
+(water-like clusters of 3 atoms, planar systems with one component exactly constant or exactly 0, all atoms at one point, values on
+the 0.001 grid and half-way between grid points), array layouts (trajectory built on a non-contiguous / Fortran-ordered view,
+float64 times and cells), further time series (constant, non-monotonic) and cells (only ONE of the six cell fields varies along the
+trajectory), topologies with chain ids / segment ids / serials / bonds, the save entry points (Trajectory.save_<format>(), file
+name as pathlib.Path, force_overwrite=False on a fresh path, saving over an existing LONGER file of the same name, HDF5
+mode='a' appending the second half), reader options (load_pdb no_boxchk / standard_names), atom and residue counts exactly on
+the width of the fixed columns (99999 / 100000 atoms, 9999 / 10000 residues), frame counts around 100 and 256, and 9 / 10 / 100
+numbered restart files (zero padding changes width)."""
 from __future__ import annotations
 
 import atexit
 import math
 import os
+import pathlib
 import shutil
 import tempfile
 
@@ -51,7 +62,7 @@ NATIVE = ["mdtraj.formats.xtc", "mdtraj.formats.trr", "mdtraj.formats.dcd", "mdt
 RULE = ("thorough: exhaustive grid extension x n_atoms x magnitude x sign x cell kind (2 frames) plus the seeded stream; case = (extension incl. aliases and .gz, n_frames 1..40, n_atoms in {1,2,3,8,9,10,11,12,33,100,1000}, coordinate "
         "magnitude 1e-3 .. 3e6 nm (just inside / outside every fixed-width limit), sign pattern, time series kind, cell kind "
         "none/cubic/ortho/triclinic/per-frame, gro precision 1..6, pdb ter/header/bfactors, topology kind) from a seeded stream; "
-        "non-trivial = the file was written and at least one monitor compared it with the input; distinct = distinct descriptors")
+        "round-5 stream C01wide: coordinate patterns (clusters, planar, coincident, on / between grid points), array layouts, constant / non-monotonic times, one-field-varying cells, rich topologies, save entry points (save_<fmt>, pathlib, force_overwrite=False, over an existing longer file, h5 mode=a), load_pdb options, column-width atom / residue counts, frame counts around 100 / 256, 9 / 10 / 100 numbered restart files; non-trivial = the file was written and at least one monitor compared it with the input; distinct = distinct descriptors")
 WORKERS = {"quick": 8, "thorough": 16}
 BUDGET = {"quick": 100, "thorough": 1500}
 EPS = 2.0 ** -24
@@ -218,11 +229,111 @@ def gen_cases(tier, seed):
         if FMT[ext]["canon"] == "pdb":
             c.update(ter=bool(k % 2), header=True, bf="none")
         yield c
+    yield from _wide_cases(tier, seed, i + n + 1000)
+
+
+DISTS_W = ["clusters", "clusters", "flat0", "flat", "same", "grid", "half"]
+TIMES_W = ["constant", "nonmonotonic"]
+ENTRIES_W = ["method", "pathlib", "no-overwrite", "over-existing"]
+SAVE_METHOD = {"h5": "save_hdf5", "xtc": "save_xtc", "trr": "save_trr", "dcd": "save_dcd", "nc": "save_netcdf", "mdcrd": "save_mdcrd", "xyz": "save_xyz",
+               "lammpstrj": "save_lammpstrj", "gro": "save_gro", "pdb": "save_pdb", "dtr": "save_dtr", "rst7": "save_amberrst7", "ncrst": "save_netcdfrst"}
+
+
+def _wide_cases(tier, seed, i0):
+    i = i0
+    nw = 3600 if tier == "quick" else 16000
+    for j in range(nw):
+        rng = common.rng_for("C01wide", seed, j)
+        ext = EXT_STREAM[j % len(EXT_STREAM)]
+        canon = FMT[ext]["canon"]
+        na = int(ATOMS[int(rng.integers(len(ATOMS)))])
+        nf = int(rng.choice([1, 2, 3, 5, 8, 13, int(rng.integers(1, 41))]))
+        if canon in ("rst7", "ncrst"):
+            nf = min(nf, int(rng.choice([1, 2, 3, 5])))
+        while nf * na > 4000 and nf > 1:
+            nf = max(1, nf // 2)
+        c = dict(i=i, seed=common.case_seed(seed, "C01wide", j), ext=ext, nf=nf, na=na, mag=float(rng.choice([1e-3, 0.1, 3.0, 3.0, 50.0, 99.9, 999.9])),
+                 dist="spread", sign=str(rng.choice(["mixed", "mixed", "+", "-"])), time=str(rng.choice(["nonuniform", "default", "large"])),
+                 cell=str(CELL_KINDS[int(rng.integers(len(CELL_KINDS)))]), cellscale=float(rng.choice([1.0, 1.0, 20.0])), top=str(rng.choice(["ident", "random"])))
+        if canon == "gro":
+            c["prec"] = int(rng.integers(1, 7)) if rng.random() < 0.8 else None
+        if canon == "pdb":
+            c.update(ter=bool(rng.random() < 0.6), header=bool(rng.random() < 0.7), bf=str(rng.choice(["none", "none", "1d", "2d"])))
+        which = j % 9
+        if which in (0, 1):
+            c["dist"] = DISTS_W[int(rng.integers(len(DISTS_W)))]
+        elif which == 2:
+            c["layout"] = str(rng.choice(["noncontig", "fortran", "f64meta"]))
+        elif which == 3:
+            c["time"] = TIMES_W[int(rng.integers(len(TIMES_W)))]
+        elif which == 4:
+            c["cell"] = "pf-onefield"
+            c["nf"] = max(c["nf"], 3) if canon not in ("rst7", "ncrst") else 3
+        elif which == 5:
+            c["top"] = "rich"
+        elif which == 6:
+            c["entry"] = ENTRIES_W[int(rng.integers(len(ENTRIES_W)))]
+        elif which == 7:
+            if canon == "h5" and c["nf"] >= 2:
+                c["h5a"] = int(rng.integers(1, c["nf"]))
+            elif canon == "pdb":
+                c["lk"] = str(rng.choice(["no_boxchk", "standard_names=False"]))
+                if c["lk"] == "no_boxchk":
+                    c.update(cell="ortho", cellscale=1.0, na=int(rng.choice([100, 1000])), nf=1, mag=3.0)   # > 1000 atoms / nm^3 is possible
+            else:
+                c["dist"], c["layout"] = DISTS_W[int(rng.integers(len(DISTS_W)))], str(rng.choice(["noncontig", "fortran"]))
+        else:
+            c["dist"] = DISTS_W[int(rng.integers(len(DISTS_W)))]
+            c["entry"] = ENTRIES_W[int(rng.integers(len(ENTRIES_W)))]
+            c["time"] = str(rng.choice(TIMES_W + ["nonuniform"]))
+        yield c
+        d = _asan_twin(c, j)
+        if d:
+            yield d
+        i += 1
+    # atom / residue counts exactly on the width of the fixed columns of PDB and GRO (5-digit atom serial, 4/5-digit residue number)
+    edge = [(e, na) for e in ("pdb", "gro") for na in (99999, 100000, 29997, 30000)]
+    if tier != "thorough":
+        edge = [edge[(seed + k * 3) % len(edge)] for k in range(3)]
+    for k, (ext, na) in enumerate(edge):
+        c = dict(i=i, seed=common.case_seed(seed, "C01edge", k), ext=ext, nf=1, na=na, mag=9.0, dist="spread", sign="+", time="default",
+                 cell=("ortho", "none")[k % 2], cellscale=20.0, top="ident")
+        if ext == "gro":
+            c["prec"] = 3
+        else:
+            c.update(ter=True, header=True, bf="none")
+        yield c
+        i += 1
+    # frame counts around 100 and 256 (default chunk / one-byte counters), few atoms
+    fl = [e for e in EXT_STREAM if FMT[e]["canon"] not in ("rst7", "ncrst")]
+    counts = [99, 100, 101, 255, 256, 257]
+    sel = [(e, m) for e in sorted(set(fl)) for m in counts]
+    if tier != "thorough":
+        sel = [sel[(seed * 7 + k * 11) % len(sel)] for k in range(8)]
+    for k, (ext, m) in enumerate(sel):
+        c = dict(i=i, seed=common.case_seed(seed, "C01count", k), ext=ext, nf=m, na=int([1, 3, 10][k % 3]), mag=9.0, dist="spread", sign="mixed", time="nonuniform",
+                 cell=["ortho", "none", "pf-tric"][k % 3], cellscale=1.0, top="ident")
+        if FMT[ext]["canon"] == "lammpstrj" and c["cell"] == "none":
+            c["cell"] = "ortho"
+        if FMT[ext]["canon"] == "gro":
+            c["prec"] = 3
+        if FMT[ext]["canon"] == "pdb":
+            c.update(ter=bool(k % 2), header=True, bf="none")
+        yield c
+        i += 1
+    # numbered restart files: the zero padding of the suffix changes width at 10 and 100 frames
+    for k, (ext, m) in enumerate([(e, m) for e in ("rst7", "ncrst") for m in ((9, 10) if tier == "quick" else (9, 10, 99, 100))]):
+        yield dict(i=i, seed=common.case_seed(seed, "C01rst", k), ext=ext, nf=m, na=int([3, 10][k % 2]), mag=3.0, dist="spread", sign="mixed", time="nonuniform",
+                   cell=["ortho", "pf-tric"][k % 2], cellscale=1.0, top="ident")
+        i += 1
 
 
 def _topology(case):
     if case["top"] == "ident":
         return files.ident_top(case["na"])
+    if case["top"] == "rich":
+        # chain ids (repeated ones too), segment ids, residue numbers with gaps and repeats, atom serials with gaps, typed bonds
+        return common.random_topology(common.rng_for("C01top", case["seed"]), case["na"], rich=True, bonds=True)
     return common.random_topology(common.rng_for("C01top", case["seed"]), case["na"], rich=False, bonds=False)
 
 
@@ -230,7 +341,23 @@ def _build(case):
     import mdtraj as md
     rng = common.rng_for("C01case", case["seed"])
     nf, na, M = case["nf"], case["na"], case["mag"]
-    r = (rng.uniform(1 - 1e-3, 1, (nf, na, 3)) if case["dist"] == "shell" else rng.uniform(0, 1, (nf, na, 3))) * M
+    dist = case["dist"]
+    r = (rng.uniform(1 - 1e-3, 1, (nf, na, 3)) if dist == "shell" else rng.uniform(0, 1, (nf, na, 3))) * M
+    if dist == "clusters":
+        # water-like: groups of three atoms within 0.1 nm of centres spread over the magnitude (what the XTC run-length /
+        # small-difference encoding and its atom swapping are made for)
+        centres = rng.uniform(0, 1, (nf, (na + 2) // 3, 3)) * M
+        r = np.repeat(centres, 3, axis=1)[:, :na] + rng.uniform(-0.1, 0.1, (nf, na, 3)) * min(1.0, M)
+        r = np.abs(r)
+    elif dist in ("flat", "flat0"):
+        # planar system: one Cartesian component identical for all atoms and frames (exactly 0 for flat0)
+        r[..., int(rng.integers(3))] = 0.0 if dist == "flat0" else float(np.float32(rng.uniform(0, 1) * M))
+    elif dist == "same":
+        r = np.repeat(rng.uniform(0, 1, (nf, 1, 3)) * M, na, axis=1)
+    elif dist in ("grid", "half"):
+        # exact multiples of 0.001 nm (grid), or half-way between two of them (half): decimal formatters and the XTC quantiser
+        # see values on / between their grid points
+        r = (np.floor(r * 1000.0) + (0.5 if dist == "half" else 0.0)) / 1000.0
     if case["sign"] == "-":
         r = -r
     elif case["sign"] == "mixed":
@@ -239,6 +366,13 @@ def _build(case):
     if r.size > 4:
         r.reshape(-1)[4] = 1e-3
     xyz = r.astype(np.float32)
+    layout = case.get("layout")
+    if layout == "noncontig":
+        big = np.full((nf, na, 6), 7.5e8, dtype=np.float32)   # the gaps hold a value no format could hold
+        big[..., ::2] = xyz
+        xyz = big[..., ::2]
+    elif layout == "fortran":
+        xyz = np.asfortranarray(xyz)
     t = md.Trajectory(xyz, _topology(case))
     tk = case["time"]
     k = np.arange(nf)
@@ -252,6 +386,12 @@ def _build(case):
         t.time = (-10.0 + np.cumsum(rng.uniform(0.5, 3.0, nf))).astype(np.float32)
     elif tk == "exp":
         t.time = ((k + 1) * 3e16).astype(np.float32) if rng.random() < 0.5 else (5e-5 + k).astype(np.float32)
+    elif tk == "constant":
+        t.time = np.full(nf, float(rng.choice([0.0, 7.5, 1000.0])), np.float32)   # e.g. minimisation output: every frame the same time
+    elif tk == "nonmonotonic":
+        t.time = rng.permutation(np.cumsum(rng.uniform(0.5, 3.0, nf))).astype(np.float32)   # joined / reordered runs
+    if layout == "f64meta" and tk != "default":
+        t.time = np.asarray(t.time, np.float64)
     ck = case["cell"]
     if ck != "none":
         per = ck.startswith("pf-")
@@ -265,10 +405,23 @@ def _build(case):
                 first_rect = bool(case["seed"] % 3)
                 kk = "ortho" if (f == 0) == first_rect or (f and rng.random() < 0.3) else kk
             cells.append(common.random_cell(rng, kk))
-        if not per:
+        if ck == "pf-onefield":
+            # only ONE of the six cell fields changes along the trajectory (semi-isotropic pressure coupling, a shearing box)
+            fld = int(rng.integers(6))
+            base = common.random_cell(rng, "ortho" if fld < 3 and rng.random() < 0.5 else common.CELL_KINDS[2 + int(rng.integers(len(common.CELL_KINDS) - 2))])
+            cells = []
+            for f in range(nf):
+                L, A = np.array(base[0], float), np.array(base[1], float)
+                if fld < 3:
+                    L[fld] *= 1.0 + 0.01 * f
+                else:
+                    A[fld - 3] += 0.25 * ((f % 5) - 2)
+                cells.append((L, A))
+        elif not per:
             cells = cells * nf
-        t.unitcell_lengths = (np.array([c[0] for c in cells]) * case["cellscale"]).astype(np.float32)
-        t.unitcell_angles = np.array([c[1] for c in cells]).astype(np.float32)
+        mdt = np.float64 if layout == "f64meta" else np.float32
+        t.unitcell_lengths = (np.array([c[0] for c in cells]) * case["cellscale"]).astype(np.float32).astype(mdt)
+        t.unitcell_angles = np.array([c[1] for c in cells]).astype(np.float32).astype(mdt)
     return t, rng
 
 
@@ -478,7 +631,7 @@ def _roundtrip(ctx, case, T, Lt, key, frames=None, mon="roundtrip"):
             ctx.violation(mon + ".cell", key("cell", "invented"), f"{case['ext']}: saved without unit cell, loaded with lengths {Lt.unitcell_lengths[0].tolist()} angles {Lt.unitcell_angles[0].tolist()}")
         return good
     if Lt.unitcell_lengths is None:
-        if canon == "pdb" and T.n_atoms / max(float(T.unitcell_volumes.min()), 1e-30) > 900.0:
+        if canon == "pdb" and case.get("lk") != "no_boxchk" and T.n_atoms / max(float(T.unitcell_volumes.min()), 1e-30) > 900.0:
             # load_pdb documents that a CRYST1 cell holding more than 1000 atoms per nm^3 is taken for a dummy record and dropped
             ctx.skip(mon + ".cell", "PDB: more than ~1000 atoms per nm^3 of cell volume: documented dummy-CRYST1 heuristic drops the cell", nf)
             return good
@@ -770,9 +923,44 @@ def run_case(case, ctx):
     d = tempfile.mkdtemp(prefix="case-", dir=_TMP or "/var/tmp")
     try:
         path = os.path.join(d, f"t.{ext}")
+        entry, h5a = case.get("entry"), case.get("h5a")
+        for nm in ("dist", "layout", "entry", "lk"):
+            if case.get(nm) and (nm != "dist" or case["dist"] not in ("spread", "shell")):
+                ctx.observe("wide_" + nm, case[nm])
+        if case.get("layout") in ("noncontig", "fortran"):
+            ctx.observe("xyz_c_contiguous_in_trajectory", bool(T.xyz.flags["C_CONTIGUOUS"]))
+        if case["top"] == "rich":
+            ctx.observe("topology", "rich (chain ids, segments, serials, bonds)")
+        if h5a:
+            ctx.observe("h5_append_split", f"{h5a}/{T.n_frames}")
         try:
-            T.save(path, **kw)
+            if entry == "over-existing" and not (canon in ("rst7", "ncrst") and T.n_frames > 1):
+                # a LONGER file of the same name exists (other coordinates, 3 more frames): the default force_overwrite=True
+                # must replace it; everything below then judges the new file only
+                old_t = md.Trajectory(np.flip(np.concatenate([T.xyz, T.xyz[:1], T.xyz[:1], T.xyz[:1]]), axis=1) * np.float32(0.5) + np.float32(0.25), T.topology)
+                if T.unitcell_lengths is not None:
+                    old_t.unitcell_lengths = np.concatenate([T.unitcell_lengths, T.unitcell_lengths[:1], T.unitcell_lengths[:1], T.unitcell_lengths[:1]])
+                    old_t.unitcell_angles = np.concatenate([T.unitcell_angles, T.unitcell_angles[:1], T.unitcell_angles[:1], T.unitcell_angles[:1]])
+                try:
+                    old_t.save(path)
+                    ctx.observe("overwrote_existing_longer_file", canon)
+                except Exception:
+                    pass
+            if h5a:
+                T[:h5a].save(path, **kw)
+                T[h5a:].save(path, mode="a", **kw)
+            elif entry == "method":
+                getattr(T, SAVE_METHOD[canon])(path, **kw)
+            elif entry == "pathlib":
+                T.save(pathlib.Path(path), **kw)
+            elif entry == "no-overwrite":
+                T.save(path, force_overwrite=False, **kw)
+            else:
+                T.save(path, **kw)
         except Exception as e:
+            if entry == "pathlib" and isinstance(e, TypeError) and any(w in str(e) for w in ("PosixPath", "expected bytes", "expected str", "path")):
+                ctx.violation("save", f"{canon}:save(pathlib.Path):raises-TypeError", f"{ext}: Trajectory.save(pathlib.Path(...)) raised {e!r} (documented: filename is path-like)")
+                return
             r = _reason(e)
             ctx.skip("save", f"{ext}: save raised {r}")
             _stat(ext, "save refused: " + r)
@@ -795,7 +983,8 @@ def run_case(case, ctx):
             _stat(ext, "roundtrip skipped (documented ambiguity)")
         else:
             try:
-                Lt = md.load(path) if top is None else md.load(path, top=top)
+                lk = {"no_boxchk": dict(no_boxchk=True), "standard_names=False": dict(standard_names=False)}.get(case.get("lk"), {})
+                Lt = md.load(path, **lk) if top is None else md.load(path, top=top, **lk)
             except Exception as e:
                 r = _reason(e)
                 ctx.skip("load", f"{ext}: load raised {r}" + (" [beyond-field-limit]" if overflow else ""))
